@@ -671,6 +671,196 @@ def check_wrapper_collision(ctx, name, shape, transport="grpc+rest"):
                 ctx.fail("wrapper-collision:result", f"{name}.proto ({shape}), {c['tag']} ({kind}): the caller got {str(ok)[:260]}, expected {want_r}", pl)
 
 
+# ---------------------------------------------------------------- proto-plus DEPENDENCY packages (`proto-plus-deps=`) whose modules need an alias
+
+DEP, AUX = "acme.dep.v1", "acme.aux.v1"
+PPDEPS_SCENARIOS = ("own-module", "two-deps", "reserved-module", "field-name", "plus-and-pb2", "dep-request")
+
+
+def build_ppdeps_api(scenario, word="type"):
+    """API-E: the API `acme.lib.v1` uses message and enum types of dependency packages that are proto-plus libraries of their own.
+    The dependency's module needs an alias because its base name is
+      own-module      that of a module of the API itself (`common.proto` in both),
+      two-deps        that of a module of ANOTHER proto-plus dependency (`acme.dep.v1` and `acme.aux.v1` both have `common.proto`),
+      reserved-module a reserved word (`<word>.proto`),
+      field-name      that of a flattened parameter of the method (`mark.proto`, parameter `mark`),
+      plus-and-pb2    that of a plain `_pb2` dependency (`acme.aux.v1` is NOT declared proto-plus),
+      dep-request     (as own-module, and) the dependency's type is the request and response type of an rpc.
+    -> dict(dep_sets=[(package, [files])], api=[files], pb2=[files], plus=[packages], all=[files])"""
+    base = {"reserved-module": word, "field-name": "mark"}.get(scenario, "common")
+    d = apigen.File(f"acme/dep/v1/{base}.proto", DEP)
+    kind = d.enum("Kind", ["KIND_UNSPECIFIED", "HARD", "SOFT"])
+    mark = d.msg("Mark"); mark.field("class", "string", 1); mark.field("name", "string", 2); mark.field("kind", "enum", 3, type_name=kind)
+    ds = d.service("Marks", host="dep.example.com"); ds.method("GetMark", mark, mark)
+    deps, own, pb2 = [(DEP, [d])], [], []
+    if scenario in ("two-deps", "plus-and-pb2"):
+        a = apigen.File("acme/aux/v1/common.proto", AUX)
+        note = a.msg("Note"); note.field("import", "string", 1); note.field("text", "string", 2)
+        if scenario == "two-deps":
+            as_ = a.service("Notes", host="aux.example.com"); as_.method("GetNote", note, note)
+            deps.append((AUX, [a]))
+        else:
+            pb2.append(a)
+    else:
+        a = note = None
+    if scenario in ("own-module", "dep-request"):
+        c = apigen.File("acme/lib/v1/common.proto", PKG)
+        tag = c.msg("Tag"); tag.field("type", "string", 1); tag.field("name", "string", 2)
+        own.append(c)
+    else:
+        tag = None
+    f = apigen.File("acme/lib/v1/lib.proto", PKG).dep(d.name, *([a.name] if a else []), *[x.name for x in own])
+    fields = [("name", "string", None), ("mark", "message", mark), ("kind", "enum", kind)]
+    if tag:
+        fields.append(("tag", "message", tag))
+    if note:
+        fields.append(("note", "message", note))
+    book = f.msg("Book"); rq = f.msg("GetBookRequest")
+    for m in (book, rq):
+        for i, (n, t, tn) in enumerate(fields):
+            m.field(n, t, i + 1, **({"type_name": tn} if tn else {}))
+    book.field("marks", "message", 9, repeated=True, type_name=mark)
+    s = f.service("Library")
+    s.method("GetBook", rq, book, http=("get", "/v1/{name=books/*}"), sigs=[",".join(n for n, _, _ in fields)])
+    s.method("CreateBook", rq, book, http=("post", "/v1/books"), body="mark", sigs=["name,mark"])
+    if scenario == "dep-request":
+        s.method("PutMark", mark, mark, http=("post", "/v1/marks"), body="*")
+    return dict(dep_sets=deps, api=own + [f], pb2=pb2, plus=[p for p, _ in deps], all=[d] + ([a] if a else []) + own + [f], base=base)
+
+
+def check_ppdeps(ctx, scenario, word="type"):
+    """generate the dependency libraries and the API library (`proto-plus-deps=`) into one site directory, import everything in a fresh
+    interpreter, call with requests that carry the dependency-typed values (request=, flattened; sync/asyncio gRPC, REST): the server reads
+    what the caller meant, the response comes back in the API's and the dependency's types"""
+    import base64
+    spec = build_ppdeps_api(scenario, word)
+    payload = {"api": "proto-plus-deps", "scenario": scenario, "word": word}
+    label = f"proto-plus-deps/{scenario}" + (f"/{word}" if scenario == "reserved-module" else "")
+    ctx.count("position", f"proto-plus dependency module needing an alias: {scenario}")
+    root, packages = None, []
+    try:
+        for pkg, files in spec["dep_sets"]:
+            dreq = apigen.request(files, "transport=grpc,autogen-snippets=false")
+            dres, err = genrun.try_generate(dreq)
+            if err:
+                ctx.assume(f"the dependency package of {label} generates as a library of its own")
+                return
+            root = genrun.materialise(dres, root=root)
+            dapi, _ = genrun.build_api(dreq)
+            packages.append(rpc.py_locations(dapi, list(dapi.services.values())[0])["package"])
+        req = apigen.request(spec["all"], "transport=grpc+rest,autogen-snippets=false,proto-plus-deps=" + "+".join(spec["plus"]), targets=spec["api"])
+        res, err = genrun.try_generate(req)
+        if err:
+            ctx.fail(f"proto-plus-deps:generation:{err[0]}", f"{label}: generator raised {err[0]}: {err[1]}", payload)
+            return
+        root = genrun.materialise(res, root=root)
+        for fl in spec["pb2"]:
+            genrun.materialise_pb2(root, fl.pb)
+        api, _ = genrun.build_api(req)
+        svc = api.services[f"{PKG}.Library"]
+        loc = rpc.py_locations(api, svc)
+        codec = rpc.Codec(spec["all"])
+        # T2: for every type a method refers to, the name its import statement binds is the module name its references use
+        ms = list(svc.methods.values())
+        seen = {}
+        for m in ms:
+            for t in m.ref_types:
+                a = t.ident
+                if not a.module:
+                    continue
+                imp = a.python_import
+                ref = str(a).split(".")[0]
+                kind = ("python" if not a.api_naming else "own" if a.proto_package.startswith(a.api_naming.proto_package)
+                        else "plus-dep" if a.is_proto_plus_type else "pb2")
+                seen[(kind, a.module, ".".join(a.package), bool(a.module_alias))] = (imp.alias or imp.module, ref, a.module_alias, m.name)
+        keys = list(seen)
+        mo = ctx.driver.ask([{"op": "c12.import", "kind": k[0], "module": k[1], "alias": seen[k][2]} for k in keys])
+        for k, a_ in zip(keys, mo):
+            ctx.traces += 1
+            bound, ref, alias, mname = seen[k]
+            if a_["bound"] != bound or a_["reference"] != ref:
+                ctx.disagree("T2:c12.python-import", f"{label}: {k[0]} module {k[2]}.{k[1]} (alias {alias!r}, method {mname}): import binds {bound!r}, references say "
+                                                     f"{ref!r}; model: binds {a_['bound']!r}, references {a_['reference']!r}", payload)
+        full = f"{PKG}.GetBookRequest"
+        val = {"name": "books/b1", "mark": {"class": "c1", "name": "n2", "kind": "HARD"}, "kind": "SOFT"}
+        fieldnames = [x.name for x in codec.pool.FindMessageTypeByName(full).fields]
+        if "tag" in fieldnames:
+            val["tag"] = {"type": "t1", "name": "n1"}
+        if "note" in fieldnames:
+            val["note"] = {"import": "i1", "text": "x"}
+        reply = dict(val, marks=[{"class": "c2"}, {"name": "n3", "kind": "SOFT"}])
+        enc = lambda fn, dct: base64.b64encode(codec.encode(fn, dct)).decode()
+        jsonify = lambda fn, dct: json.dumps(__import__("google.protobuf.json_format", fromlist=["x"]).MessageToDict(
+            __import__("google.protobuf.json_format", fromlist=["x"]).ParseDict(dct, codec.cls(fn)(), descriptor_pool=codec.pool)))
+        T = lambda m: rpc.py_type(svc.methods[m].input)
+        P = lambda m: f"/{PKG}.Library/{m}"
+        calls = []
+        for flat in (False, True):
+            how = "flattened" if flat else "request="
+            mode = "kwargs" if flat else "request-instance"
+            calls += [
+                {"tag": f"dependency-typed fields ({how})", "method": "get_book", "mode": mode, "py_request": T("GetBook"),
+                 "kwargs": [[n, n] for n in fieldnames], "expect": (full, val), "path": P("GetBook"), "http": ("/v1/{name=books/*}", None),
+                 "reply": (f"{PKG}.Book", reply)},
+                {"tag": f"dependency-typed body ({how})", "method": "create_book", "mode": mode, "py_request": T("CreateBook"),
+                 "kwargs": [["name", "name"], ["mark", "mark"]], "expect": (full, {"name": val["name"], "mark": val["mark"]}), "path": P("CreateBook"),
+                 "http": ("/v1/books", "mark"), "reply": (f"{PKG}.Book", reply)},
+            ]
+        if "PutMark" in svc.methods:
+            calls.append({"tag": "dependency type as request and response (request=)", "method": "put_mark", "mode": "request-instance", "py_request": T("PutMark"),
+                          "expect": (f"{DEP}.Mark", val["mark"]), "path": P("PutMark"), "http": ("/v1/marks", "*"), "reply": (f"{DEP}.Mark", {"class": "c9", "kind": "SOFT"})})
+        for c in calls:
+            c["request_b64"] = codec.encode_b64(*c["expect"])
+        keep = ("method", "mode", "py_request", "kwargs", "request_b64")
+        gcalls = [dict({k: c[k] for k in keep if k in c}, consume="value", script={c["path"]: [{"code": "OK", "replies": [enc(*c["reply"])]}]}) for c in calls]
+        rcalls = [dict({k: c[k] for k in keep if k in c}, consume="value", script=[{"status": 200, "body": jsonify(*c["reply"])}]) for c in calls]
+        out = libhost.run(root, [{"op": "import_all", "package": pk} for pk in packages] + [
+            {"op": "import_all", "package": loc["package"]},
+            {"op": "grpc_session", "client": loc["client"], "transport": loc["grpc"], "async": False, "calls": gcalls},
+            {"op": "grpc_session", "client": loc["async_client"], "transport": loc["grpc_asyncio"], "async": True, "calls": gcalls},
+            {"op": "rest_session", "client": loc["client"], "transport": loc["rest"], "calls": rcalls}], timeout=300)
+    finally:
+        if root:
+            genrun.cleanup(root)
+    n = len(packages)
+    for pk, imp in zip(packages, out[:n]):
+        if "child_error" in imp or imp.get("errors"):
+            ctx.assume(f"the dependency library of {label} imports on its own")
+            return
+    imp = out[n]
+    if "child_error" in imp or imp.get("errors"):
+        ctx.fail("proto-plus-deps:import", f"{label}: library does not import: {str(imp.get('errors') or imp)[:300]}", payload)
+        return
+    for kind, sess in zip(("sync", "asyncio", "rest"), out[n + 1:]):
+        if "calls" not in sess:
+            ctx.fail("proto-plus-deps:session", f"{label}: {kind} session failed: {str(sess)[-300:]}", payload)
+            continue
+        for c, r_ in zip(calls, sess["calls"]):
+            ctx.count("position", f"proto-plus dependency: {c['tag']}:{kind}")
+            pl = {**payload, "position": c["tag"], "client": kind}
+            if "ok" not in r_:
+                ctx.fail("proto-plus-deps:call", f"{label}, {c['tag']} ({kind}): call raised {r_.get('raised')}: {r_.get('msg', '')[:200]}", pl)
+                continue
+            srv = r_["server"]
+            fn, want = c["expect"]
+            if kind == "rest":
+                got, problems = rest_wire_request(codec, fn, srv[0], *c["http"]) if srv else (None, [("http-request", "no request reached the server")])
+                for k, text in problems:
+                    ctx.fail(f"wire:{k}", f"{label}, {c['tag']} (rest): {text}", pl)
+                if got is not None and got != codec.normal(fn, want):
+                    ctx.fail("wire:http-request", f"{label}, {c['tag']} (rest): server read {got}, caller meant {codec.normal(fn, want)}", pl)
+            else:
+                got = codec.decode(fn, srv[0]["requests"][0]) if srv else None
+                if got != codec.normal(fn, want):
+                    ctx.fail("proto-plus-deps:wire", f"{label}, {c['tag']} ({kind}): server decoded {got}, caller meant {codec.normal(fn, want)}", pl)
+                if srv and srv[0]["path"] != c["path"]:
+                    ctx.fail("wire:rpc-path", f"{label}, {c['tag']} ({kind}): rpc path {srv[0]['path']!r}", pl)
+            ok = r_["ok"]
+            rfn, rwant = c["reply"]
+            if not (isinstance(ok, dict) and ok.get("type") == rfn and codec.decode(rfn, ok["b64"]) == codec.normal(rfn, rwant)):
+                ctx.fail("proto-plus-deps:result", f"{label}, {c['tag']} ({kind}): the caller got {str(ok)[:260]}, expected {rfn} {rwant}", pl)
+
+
 def check_bad_positions(ctx, w):
     """API-B: dotted http path variable and flattened non-terminal segment with a reserved word. Both were
     wrong before the C12 fix: commits (DESIGN §9-F1/F2); kept as regression inputs: they must compile AND import."""
@@ -924,6 +1114,14 @@ def run(ctx):
             for tr in (("grpc+rest",) if ctx.quick else ("grpc+rest", "grpc")):
                 check_wrapper_collision(ctx, name, shape, tr)
                 ctx.case({"api": "wrapper-module-collision", "module": name, "shape": shape, "transport": tr}, distinct_key=["wrapcol", name, shape, tr])
+    # proto-plus dependency packages (`proto-plus-deps=`) whose module needs an alias: collision with the API's own module, with another
+    # dependency's module (proto-plus or _pb2), with a reserved word, with a flattened parameter; dependency type as request type
+    rp = ctx.rng("proto-plus-deps")
+    modwords = [x for x in res if x not in kw and re.fullmatch(r"[a-z][a-z0-9_]*", x)]
+    for sc in PPDEPS_SCENARIOS:
+        for wd in (dict.fromkeys(["type", rp.pick(modwords)] if ctx.quick else modwords) if sc == "reserved-module" else ["type"]):
+            check_ppdeps(ctx, sc, wd)
+            ctx.case({"api": "proto-plus-deps", "scenario": sc, "word": wd}, distinct_key=["ppdeps", sc, wd])
     for shape in ("different-messages", "one-message", "nested"):
         check_module_collisions(ctx, shape)
         ctx.case({"api": "module-collision", "shape": shape}, distinct_key=["modcol", shape])
@@ -942,6 +1140,8 @@ def search(ctx):
     for name in WRAPPER_MODULES:
         for shape in ("metadata", "everything"):
             check_wrapper_collision(ctx, name, shape, "grpc+rest")
+    for sc in PPDEPS_SCENARIOS:
+        check_ppdeps(ctx, sc, "type")
 
 
 def replay(ctx, payload):
@@ -952,6 +1152,8 @@ def replay(ctx, payload):
         check_module_collisions(ctx, payload.get("shape", "different-messages"))
     elif payload.get("api") == "wrapper-module-collision":
         check_wrapper_collision(ctx, payload.get("module", "operation"), payload.get("shape", "metadata"), payload.get("transport", "grpc+rest"))
+    elif payload.get("api") == "proto-plus-deps":
+        check_ppdeps(ctx, payload.get("scenario", "own-module"), payload.get("word", "type"))
     elif payload.get("api") == "keyword-file":
         check_kwfile(ctx, w, payload.get("other", "type"))
     elif payload.get("api") == "safe-positions":
